@@ -377,7 +377,66 @@ def object_state_writes(tree):
     return out
 
 
+def mutable_default_sites(tree):
+    """[(function, parameter, default text, line, how)] for parameters whose default value is an object built ONCE at
+    definition time (a list / dict / set display, a comprehension, a constructor call) and that the function lets
+    escape (stores it on an object, returns it) or mutates: every call that relies on the default then shares that one
+    object - two parameter objects share their option groups, two results share a list."""
+    out = []
+    for fn in ast.walk(tree):
+        if not isinstance(fn, (ast.FunctionDef, ast.AsyncFunctionDef)):
+            continue
+        a = fn.args
+        pos = a.posonlyargs + a.args
+        pairs = list(zip(pos[len(pos) - len(a.defaults):], a.defaults)) + [(k, d) for k, d in zip(a.kwonlyargs, a.kw_defaults) if d is not None]
+        for arg, d in pairs:
+            if not (isinstance(d, (ast.List, ast.Dict, ast.Set, ast.ListComp, ast.DictComp, ast.SetComp)) or
+                    (isinstance(d, ast.Call) and unparse(d.func).split(".")[-1] not in ("tuple", "frozenset", "int", "float", "complex", "str", "bool", "bytes", "dtype", "float64", "float32"))):
+                continue
+            nm = arg.arg
+            rebound = any(isinstance(n, ast.Name) and n.id == nm and isinstance(n.ctx, ast.Store) for n in ast.walk(fn))
+            if rebound:
+                continue  # (`x = list(x)` style copies: the default object itself is not what is used afterwards)
+            for n in ast.walk(fn):
+                how = None
+                if isinstance(n, ast.Assign) and isinstance(n.value, ast.Name) and n.value.id == nm and any(isinstance(t, (ast.Attribute, ast.Subscript)) for t in n.targets):
+                    how = "stored as `%s`" % unparse(n.targets[0])
+                elif isinstance(n, ast.Return) and isinstance(n.value, ast.Name) and n.value.id == nm:
+                    how = "returned"
+                elif isinstance(n, ast.Call) and isinstance(n.func, ast.Attribute) and isinstance(n.func.value, ast.Name) and n.func.value.id == nm and n.func.attr in MUTATORS + ("sort", "reverse", "fill"):
+                    how = "mutated by `.%s(...)`" % n.func.attr
+                elif isinstance(n, (ast.Assign, ast.AugAssign)):
+                    tgs = n.targets if isinstance(n, ast.Assign) else [n.target]
+                    for t in tgs:
+                        b = t
+                        while isinstance(b, (ast.Attribute, ast.Subscript)):
+                            b = b.value
+                        if isinstance(t, (ast.Attribute, ast.Subscript)) and isinstance(b, ast.Name) and b.id == nm:
+                            how = "written through `%s`" % unparse(t)[:40]
+                if how:
+                    out.append((fn, nm, unparse(d)[:40], n.lineno, how))
+                    break
+    return out
+
+
+def mutable_defaults(ctx, rule_id="FX-MUTABLE-DEFAULT"):
+    r = ctx.rule(rule_id, "no parameter default that is an object built at definition time (list / dict / set display, constructor call) is stored on an object, returned or mutated: calls relying on the default would share that one object", 1)
+    n = 0
+    for rel in ctx.repo.py_files("bempp_cl"):
+        m = ctx.repo.mod(rel)
+        for fn, nm, dflt, line, how in mutable_default_sites(m.tree):
+            n += 1
+            r.fail("%s::%s(%s=%s)" % (rel.rsplit("/", 1)[-1], fn.name, nm, dflt), rel, fn.name, line, "default `%s=%s` of %s" % (nm, dflt, fn.name),
+                   "the default `%s=%s` is evaluated once when %s is defined and is then %s: every call that does not pass `%s` shares that one object (what one caller changes, all others - and later calls - see)" % (nm, dflt, fn.name, how, nm))
+    if not n:
+        r.ok("no escaping or mutated definition-time default in the package")
+    bad = ast.parse("class P:\n    def __init__(self, quadrature=_Quadrature(), names=[]):\n        self.quadrature = quadrature\n        names.append(1)\n")
+    good = ast.parse("def cylinders(h=0.1, r=[0.5, 1, 1.5]):\n    for x in r:\n        use(x)\n    r2 = list(r)\n    return r2\n")
+    r.must_fire(len(mutable_default_sites(bad)) == 2 and not mutable_default_sites(good), "option group built in the signature and stored on self")
+
+
 def process_state(ctx, rule_id="FX-PROCESS-STATE"):
+    mutable_defaults(ctx)
     r = ctx.rule(rule_id, "every write to module-level mutable state is a reviewed site; a memo table added elsewhere must key its entries by every constructor / function argument the stored value is computed from", 9)
     seen = set()
     for rel in ctx.repo.py_files("bempp_cl"):
